@@ -717,7 +717,8 @@ func searchTable(rng *hx.Rng, r *tbl.Raw, withOOR bool) {
 			fail(site, cl, r, q, got, want)
 		}
 	}
-	// copied sample data: bytes of samples a..b from an in-memory mdat laid out by the offsets
+	// copied sample data: bytes of samples a..b, in memory and lazily with several work buffers (copydata.go)
+	searchCopy(rng, r, x, bx)
 	if withOOR {
 		// the library's only unbounded-index query without an error return, on the first number past the table
 		q := fmt.Sprintf("dt:%d", x.N+1)
